@@ -41,6 +41,11 @@ CLAIMED = {
         "Trusted: go/types, the path enumerator over the walker's syntax. Assumed: trees contain only the module's node kinds. Not decided: what user visitors do. One known finding (F12: inRange shares one operand node).",
         "exhaustiveness + per-path slot-consumption analysis of the walker's type switch (AST paths, go/types), who-passes-which-tree dataflow in expr.Compile, rewrite-site linearity",
         "DESIGN.md §4 C10, §3 E1/E6"),
+    "C11": (
+        "The BINDING RELATION of the operator-precedence parser, for all operator pairs (finite, fully enumerated): the two operator tables are read as constants; for each entry the climbing function's continuation test and the minimum precedence handed to the recursive parse of the right operand (and of a unary operator's operand) are obtained by constant propagation along the function's syntactic paths; the relation `b is absorbed into a's right operand` (23x23) and `b is absorbed into u's operand` (4x23) computed from them equals the reference relation stated as binding classes plus associativity (numbers are free); synonyms bind alike; every operator is accepted at the outermost level; every bracketed, argument, branch and top-level context restarts at that one level; the conditional form is attached only there and never inside an operator's operand; the climbing loop and the unary rule build their node from the looked-up token and the operands in source order; the conditional's three children are filled in source order. Each clause is a necessary condition: a pair whose relation differs is a two-operator expression that parses to a different tree.",
+        "Trusted: go/types; the path enumerator and the small constant propagator (fail closed: an entry whose recursive minimum does not evaluate to a constant, or paths that disagree, are undecided obligations). The reference relation is a table in the checker (tool/props/c11.go) confirmed against docs/Language-Definition.md and the operator families; a new operator is reported as undecided until the reference is extended. NOT decided: print/parse round-tripping and agreement with a reference grammar on arbitrary token sequences; postfix forms, array/map/closure syntax, error recovery; that the lexer produces exactly the tables' operator tokens.",
+        "table extraction + per-entry constant propagation through the climbing function (AST paths, go/types) + exhaustive comparison of the induced binding relation with a class/associativity reference",
+        "DESIGN.md §4 C11"),
     "C12": (
         "ONE necessary condition, thin and said so: the routing of number spellings. From the scanner's digit alphabets (default, and the one installed after each accepted radix prefix) and the parser's ordered classification predicates, every spelling class the property names — decimal integers, and hexadecimal integers for every prefix letter the scanner accepts — is routed, uniformly for all its members, to an integer parse whose base fits: a predicate whose character set meets the class's alphabet may be reached only if an earlier predicate already matches every member of the class. Breaking it makes some literal of the class be rejected or mis-valued (the property's own example `0x1e`). Value round-tripping itself is not decided.",
         "Trusted: go/types; the two small extractors (scanner alphabets, parser classification chain), which fail closed: a chain test that is not strings.Contains/ContainsAny of a constant is an undecided obligation. NOT decided: that strconv returns exactly the written number; string scanning and unescaping (R12.2 not built); token line/column (R12.3 not built); octal and binary prefixes (outside the property).",
@@ -64,7 +69,6 @@ NOT_APPLICABLE = {
     "C01": "conformance of evaluated results to the language definition for every expression and environment value is a statement about run-time values; the structural clauses of DESIGN.md §4 C01 (dispatcher exhaustiveness, operand order of templates, short-circuit shape) were not built. " + _NOT_BUILT,
     "C02": "observational equivalence of optimized and unoptimized programs quantifies over all environment values; the guard analysis of the rewrite sites (DESIGN.md §4 C02) was not built, and its planned fixes were therefore not applied. " + _NOT_BUILT,
     "C03": "type soundness over all environment values of a type needs an abstract interpretation of checker and VM over reflect types that is out of reach; the agreement rules of DESIGN.md §4 C03 were not built. " + _NOT_BUILT,
-    "C11": "round-trip equality of printing and parsing for every tree, and agreement with a reference grammar for every token sequence, are statements about parser results; the binding-power table cross-check of DESIGN.md §4 C11 was not built. " + _NOT_BUILT,
     "C15": "equality of results between typed and untyped compilation for every environment value is a run-time equivalence; the instruction-selection guard rules of DESIGN.md §4 C15 were not built. " + _NOT_BUILT,
     "C16": "agreement of the checker's name table with reflection-based lookup for every environment type quantifies over all Go types; the member-class agreement rules of DESIGN.md §4 C16 were not built. " + _NOT_BUILT,
     "C17": "equivalence of an overloaded operator occurrence with the function call for every operand value is behavioural; the patcher/checker agreement rules of DESIGN.md §4 C17 were not built (the traversal part it relies on is decided under C10). " + _NOT_BUILT,
